@@ -798,18 +798,28 @@ def run_datetime(rep, rng, n):
         others = [e["value"] for e in valid if e is not el]
         stale = rng.choice([99, "zz", "2031-01"])
         if missing_ids:
+            # the position id of the missing ('No Data') element matches nothing: it must be ignored
+            # (no raise, same output as without the reference)
             mid = missing_ids[0]
-            for tr in ({case["akey"]: {"elements": {str(mid): {"hide": True}}}},
-                       {case["akey"]: {"order": {"type": "explicit", "element_ids": [mid, el["id"]]}}}):
-                out, _after = impl_outputs(case, tr)
-                raised = {k2: v for k2, v in out.items() if v[0] == "exc"}
-                rep.cov["evaluations"] += 1
-                if raised:
-                    rep.violation("impl-raises", {"response": case["response"], "transforms": tr,
-                                  "kind": "datetime", "layout": case["layout"], "akey": case["akey"],
-                                  "okey": case["okey"], "cube_dim": case["cube_dim"], "values": "counts"},
-                                  {"raised": raised, "slot": "missing-position"},
-                                  {"cause": "datetime-missing-position"})
+            for sp in (mid, str(mid)):
+                for tr, plain in (({case["akey"]: {"elements": {sp: {"hide": True}}}}, {}),
+                                  ({case["akey"]: {"order": {"type": "explicit", "element_ids": [sp, el["id"]]}}},
+                                   {case["akey"]: {"order": {"type": "explicit", "element_ids": [el["id"]]}}})):
+                    out, _after = impl_outputs(case, tr)
+                    pout, _ = impl_outputs(case, plain)
+                    raised = {k2: v for k2, v in out.items() if v[0] == "exc"}
+                    rep.cov["evaluations"] += 1
+                    stats["missing_position"] = stats.get("missing_position", 0) + 1
+                    rcase = {"response": case["response"], "transforms": tr, "kind": "datetime",
+                             "layout": case["layout"], "akey": case["akey"], "okey": case["okey"],
+                             "cube_dim": case["cube_dim"], "values": "counts"}
+                    if raised:
+                        rep.violation("impl-raises", rcase, {"raised": raised, "slot": "missing-position"},
+                                      {"cause": "datetime"})
+                    elif first_output_diff(out, pout) is not None:
+                        rep.violation("spellings-differ", dict(rcase, transforms_2=plain, kind="relational"),
+                                      {"what": "reference to the missing element's position is not ignored",
+                                       "diff": first_output_diff(out, pout)}, {"what": "relational-datetime"})
         for slot in ("hide", "explicit", "opposing"):
             outs = []
             for x in spellings:
